@@ -158,7 +158,7 @@ impl InferenceRegion {
     }
 
     fn close_k(self, tycker: &mut Tycker<'_>) -> ResultKont<()> {
-        let candidates = tycker
+        let mut candidates = tycker
             .statics
             .fills
             .iter()
@@ -166,6 +166,10 @@ impl InferenceRegion {
                 (site.is_pattern() && !self.inherited.contains(fill)).then_some(*fill)
             })
             .collect::<Vec<_>>();
+        // `fills` is hash-ordered by identifiers whose key spaces depend on what
+        // the process checked before; the report (and its primary location)
+        // follows the inference sites instead.
+        candidates.sort_by_key(|fill| tycker.statics.fills[fill]);
         let mut unconstrained = Vec::new();
         for fill in candidates {
             let Some(solution) = tycker.statics.solus.get(&fill).copied() else {
